@@ -69,6 +69,17 @@ func drawAnyString(t *rapid.T, label string, max int) string {
 		return fmt.Sprintf("%0*d", rapid.IntRange(1, 8).Draw(t, label+"_w"), rapid.IntRange(0, 99999).Draw(t, label+"_n")) // leading zeros
 	case 2:
 		return rapid.SampledFrom([]string{"true", "null", "~", "0x1f", "1e3", "012", "yes", ".inf", "2001-12-14", "<<", "=", "1_000", "0b1", "190:20:30"}).Draw(t, label+"_yaml")
+	case 3:
+		// values that LOOK like another notation or like something to be expanded: hex literals, environment and
+		// template references (HOME, PATH, USER and PWD are defined in the child's environment), format verbs, home
+		// directories, base64 — a value is a value, whatever it looks like
+		pick := rapid.SampledFrom([]string{"0x%s", "0X%s", "${HOME}", "$HOME", "${PATH}", "${USER}x", "a${PWD}", "${UNDEFINED_VAR_X}", "$(id)", "`id`", "~/x", "~root",
+			"%s", "%d", "%%", "{{.Name}}", "{0}", "\\x41", "\\n", "QUJD", "file:///etc/passwd", "@include", "!!str x", "&a", "*a"}).Draw(t, label+"_looks")
+		if strings.Contains(pick, "%s") && strings.HasPrefix(strings.ToLower(pick), "0x") {
+			n := rapid.IntRange(1, 4).Draw(t, label+"_hexoct")
+			return fmt.Sprintf(pick, fmt.Sprintf("%X", drawBytesLatin1N(t, label+"_hex", n)))
+		}
+		return pick
 	}
 	n := rapid.IntRange(1, max).Draw(t, label+"_len")
 	var sb strings.Builder
@@ -80,6 +91,10 @@ func drawAnyString(t *rapid.T, label string, max int) string {
 		}
 	}
 	return sb.String()
+}
+
+func drawBytesLatin1N(t *rapid.T, label string, n int) []byte {
+	return rapid.SliceOfN(rapid.Byte(), n, n).Draw(t, label)
 }
 
 func drawInt(t *rapid.T, label string, lo, hi int64) int64 {
